@@ -89,6 +89,9 @@ pub mod implementations {
             bail!("neg requires one item on the local operating stack")
         };
 
+        // `-xs[0]`: the operand is a view of the element, negate the element's value
+        *val = val.move_out_of_heap_primitive_borrow()?.into_owned();
+
         val.negate()?;
 
         Ok(())
@@ -99,6 +102,8 @@ pub mod implementations {
         let Some(val) = ctx.get_last_op_item_mut() else {
             bail!("not requires one item on the local operating stack")
         };
+
+        *val = val.move_out_of_heap_primitive_borrow()?.into_owned();
 
         let Primitive::Bool(val) = val else {
             bail!("not can only negate booleans")
@@ -1146,11 +1151,15 @@ pub mod implementations {
             bail!("store_skip can only store a single item");
         }
 
-        let arg = ctx.get_last_op_item().unwrap();
+        let arg = ctx.get_last_op_item_mut().unwrap();
+
+        *arg = arg.move_out_of_heap_primitive_borrow()?.into_owned();
 
         let Primitive::Bool(val) = arg else {
             bail!("store_skip can only operate on bool (found {arg})");
         };
+
+        let val = &*val;
 
         if predicate == 1 {
             // skip if true
@@ -1317,7 +1326,7 @@ pub mod implementations {
             bail!("assert can only operate on a single item");
         }
 
-        let item = ctx.pop().unwrap();
+        let item = ctx.pop().unwrap().move_out_of_heap_primitive()?;
 
         let result = item.equals(&bool!(true))?;
 
@@ -1368,7 +1377,7 @@ pub mod implementations {
             bail!("if statements require at least one entry in the local stack")
         }
 
-        let item = ctx.pop().unwrap();
+        let item = ctx.pop().unwrap().move_out_of_heap_primitive()?;
         ctx.clear_stack();
 
         let Primitive::Bool(b) = item else {
@@ -1394,7 +1403,7 @@ pub mod implementations {
             bail!("while statements require at least one entry in the local stack")
         }
 
-        let item = ctx.pop().unwrap();
+        let item = ctx.pop().unwrap().move_out_of_heap_primitive()?;
         ctx.clear_stack();
 
         let Primitive::Bool(b) = item else {
